@@ -381,7 +381,7 @@ var dynamicExempt = map[string]string{
 // policyExempt lists individual (site, mutex, acquirer) triples that are
 // accepted, each with the reason taken from the code.
 var policyExempt = map[string]string{
-	"capnp.(*Future).Client | blocking receive (*Promise).joined | under rpc.Conn.mu taken in rpc.(*Conn).Bootstrap":        "Bootstrap calls q.p.Answer().Client() on the promise newQuestion created in the same critical section: it is unresolved and unpublished, so only the non-blocking isUnresolved branch can run",
+	"capnp.(*Future).Client | blocking receive (*Promise).joined | under rpc.Conn.mu taken in rpc.(*Conn).Bootstrap":   "Bootstrap calls q.p.Answer().Client() on the promise newQuestion created in the same critical section: it is unresolved and unpublished, so only the non-blocking isUnresolved branch can run",
 	"capnp.(*Future).Client | blocking receive (*Promise).resolved | under rpc.Conn.mu taken in rpc.(*Conn).Bootstrap": "same: the promise is unresolved and unpublished (created by newQuestion under the same hold of Conn.mu)",
 }
 
